@@ -34,9 +34,13 @@ def queries(tier):
     qs = []
     for d in shapes(tier):
         uw = maxlen(d) + 24       # the longest loops are byte copies of the whole (concrete-length) image
-        qs.append(Query("bytes_" + sname(d), "C06_map.cpp", "h_bytes_roundtrip", d, unwind=uw, timeout=900,
+        qs.append(Query("write_once_" + sname(d), "C06_map.cpp", "h_bytes_write_once", d, unwind=uw, timeout=300,
+                        desc="map byte string of shape %s: ReadMap then Write reproduces the consumed bytes up to the flag/unknown words" % sname(d)))
+        qs.append(Query("object_bytes_" + sname(d), "C06_map.cpp", "h_object_bytes", d, unwind=uw, timeout=300,
+                        desc="Map object of shape %s with all scalar fields symbolic: Write produces exactly the independent reference encoding of its fields" % sname(d)))
+        qs.append(Query("bytes_" + sname(d), "C06_map.cpp", "h_bytes_roundtrip", d, unwind=uw, timeout=300,
                         desc="map byte string of shape %s, all other bytes symbolic: ReadMap consumes it, Write reproduces the consumed bytes up to the flag/unknown words, re-read equal, second write identical" % sname(d)))
-        qs.append(Query("object_" + sname(d), "C06_map.cpp", "h_object_roundtrip", d, unwind=uw, timeout=900,
+        qs.append(Query("object_" + sname(d), "C06_map.cpp", "h_object_roundtrip", d, unwind=uw, timeout=300,
                         desc="Map object of shape %s with all scalar fields symbolic: Write then ReadMap gives an equal map and consumes everything" % sname(d)))
     eshape = shape(5, 1, nts=2, tsl0=1, tsl1=0, ngrp=0)
     for e, en in enumerate(["SetCellType", "SetLavaPossible", "SetVersionTag"]):
